@@ -129,12 +129,24 @@ def coq_query(prog, results, nm):
     crow = []
     for row in rows:
       crow.append(G.c_list(G.c_val(v, d['types'].get(f), nm, bag=(f in d['bagcols'])) for f, v in zip(fields, row)))
-    qs.append('(%d, %s, %s)' % (nm.pred(d['name']), G.c_list(str(nm.field(f)) for f in fields), G.c_list(crow)))
+    qs.append('(%d, %s, %s, %s)' % (nm.pred(d['name']), G.c_list(str(nm.field(f)) for f in fields),
+                                    G.c_list(str(nm.field(f)) for f in fields if f in d['bagcols']), G.c_list(crow)))
     order.append(d['name'])
   return G.c_list(qs), order
 
 
+_BUILT = []
+
+
+def _ensure_check_built():
+  # the comparison helpers (Core/Check.v) are not a dependency of every Props file: build them once per process
+  if not _BUILT:
+    coqrun.build(['theories/Core/Check.vo'])
+    _BUILT.append(True)
+
+
 def _eval_chunk(ch, timeout):
+  _ensure_check_built()
   text = HEADER_IMPORTS
   for i, it in enumerate(ch):
     text += 'Definition c%d := %s.\n' % (i, it)
